@@ -2,7 +2,7 @@
 (* G-mode product:  Env x StreamContract monitor x implementation graph G.  *)
 (* G is the transition graph of the REAL netlists, computed on demand by    *)
 (* harness/graphloop.py (see DESIGN.md 2, mode G).                          *)
-EXTENDS StreamContract, Json, IOUtils
+EXTENDS StreamContract, Json, IOUtils, GraphLookup
 
 G == JsonDeserialize(IOEnv.GRAPH)
 NDuts == Len(G.duts)
@@ -17,11 +17,10 @@ Init == /\ d \in 1..NDuts /\ s = 0 /\ CInit
 
 Step(iv) ==
   /\ s >= 0
-  /\ LET k == ToString(iv) IN
-       IF k \in DOMAIN G.duts[d].succ[s + 1]
-       THEN LET e == G.duts[d].succ[s + 1][k] IN
-            /\ s' = e.d /\ d' = d
-            /\ CStep(C, iv, e.o)
+  /\ LET e == GLookup(G.duts[d].succ[s + 1], iv) IN
+       IF e # <<>>
+       THEN /\ s' = e[3] /\ d' = d
+            /\ CStep(C, iv, e[2])
        ELSE /\ PrintT(<<"NEED", d, s, iv>>)
             /\ s' = -1 /\ d' = d /\ UNCHANGED cvars
 
